@@ -285,6 +285,12 @@ fn check_view_range(
 ) -> Result<usize, Failure> {
     let order = if desc { Order::Descending } else { Order::Ascending };
     let got: Vec<(Vec<u8>, Vec<u8>)> = store.range(start, end, order).collect();
+    // the keys-only and values-only forms of the same iteration
+    let gk: Vec<Vec<u8>> = store.range_keys(start, end, order).collect();
+    let gv: Vec<Vec<u8>> = store.range_values(start, end, order).collect();
+    if gk != got.iter().map(|(k, _)| k.clone()).collect::<Vec<_>>() || gv != got.iter().map(|(_, v)| v.clone()).collect::<Vec<_>>() {
+        fail!("C07:range-keys-values-disagree", "{}: range({:?},{:?},desc={}) lists {} entries, range_keys {:?}, range_values {:?}", what, start.map(hexs), end.map(hexs), desc, got.len(), gk.iter().map(|k| hexs(k)).collect::<Vec<_>>(), gv.iter().map(|k| hexs(k)).collect::<Vec<_>>());
+    }
     let view = ref_view(model, p);
     let want = ref_range(&view, start, end, desc);
     if got != want {
